@@ -92,8 +92,10 @@ class World(object):
             if rv["k"] in ("ref", "rawptr"):
                 pl = rv["place"]
                 continue
-            if rv["k"] == "use" and "copy" in rv["op"] and self.prog.types[body.locals[pl["l"]]].get("k") == "ref":
-                pl = rv["op"]["copy"]
+            if rv["k"] == "use" and ("copy" in rv["op"] or "move" in rv["op"]) and \
+                    self.prog.types[body.locals[pl["l"]]].get("k") == "ref":
+                # a copied `&T` or a moved `&mut T` (argument of an inlined helper) is still the same borrow
+                pl = rv["op"].get("copy") or rv["op"].get("move")
                 continue
             return pl["l"]
         return None
